@@ -29,6 +29,14 @@ def run_one(pid, tier, seed, replay=None):
             from pmv import selftest
             selftest.run(pid, ck)
         rc = ck.finish()
+        if tier == 'thorough' and rc == 0 and ck.selftest:
+            # the positive examples of the rules must fire and their corrected twins must stay silent on every
+            # thorough run: otherwise a rule has stopped seeing what it is meant to see (fail closed)
+            bad_ = [r_ for r_ in ck.selftest.get('results', []) if r_.get('outcome') in ('MISSED', 'FALSE-ALARM')]
+            if bad_:
+                print('ANALYSIS-ERROR property=%s self-test: %d catalogue entr%s not decided as recorded (%s)' % (
+                    pid, len(bad_), 'y' if len(bad_) == 1 else 'ies', bad_[0].get('name')))
+                rc = 2
         if replay:
             import json
             with open(replay) as f:
